@@ -6,6 +6,7 @@ import (
 	"flag"
 	"fmt"
 	"os"
+	"sync"
 	"time"
 
 	erpc "github.com/henrylee2cn/erpc/v6"
@@ -28,6 +29,24 @@ type PlugScenario struct {
 	VStage   string   `json:"vstage"`
 	ExpHooks []string `json:"exphooks"`
 	Optional []string `json:"optional"`
+	Invoked  bool     `json:"invoked"`
+	// second class of spec/Plugins.tla: how the global lists came into being, both sibling routes called
+	Origin string          `json:"origin"`
+	Build  []PlugBuildStep `json:"build"`
+	Calls  []PlugCall      `json:"calls"`
+}
+
+// PlugBuildStep is one construction step of the global plugin lists (before the routes are registered).
+type PlugBuildStep struct {
+	Op    string   `json:"op"`  // newpeer, appendleft, appendright, remove
+	How   string   `json:"how"` // newpeer: "literal" (exact slice) or "sparecap" (slice with room to spare)
+	Names []string `json:"names"`
+}
+
+// PlugCall is one CALL of a scenario of the second class, with the hook sequence expected for it.
+type PlugCall struct {
+	Target   int      `json:"target"`
+	ExpHooks []string `json:"exphooks"`
 	Invoked  bool     `json:"invoked"`
 }
 
@@ -57,6 +76,9 @@ func drvPlug(args []string) int {
 		return 2
 	}
 	defer f.Close()
+	// the framework ends the process (Fatalf) when it refuses a configuration: made observable, see plugFatalCatcher
+	erpc.SetLoggerOutputter(&plugFatalCatcher{})
+	erpc.SetLoggerLevel("CRITICAL")
 	rd := bufio.NewReaderSize(f, 1<<20)
 	n := 0
 	for {
@@ -68,6 +90,10 @@ func drvPlug(args []string) int {
 				return 2
 			}
 			n++
+			if sc.Origin != "" {
+				plugGuard(rec, func() { runPlugOrigin(rec, &sc, n) })
+				continue
+			}
 			runPlug(rec, &sc, n)
 		}
 		if err != nil {
@@ -184,4 +210,212 @@ func runPlug(rec *Rec, sc *PlugScenario, n int) {
 	case <-time.After(2 * time.Second):
 	}
 	rec.Emit("Quiesce")
+}
+
+// plugFatalCatcher is installed as the framework's log outputter while the plug driver runs.  erpc.Fatalf writes a CRITICAL
+// message, flushes the outputter and ends the process; here the flush that follows a CRITICAL message unwinds the scenario
+// instead (the peer under construction is abandoned, as it would be by the exit), so that the refusal is recorded as an
+// event of that scenario's trace and the remaining scenarios still run.
+type plugFatalCatcher struct {
+	mu   sync.Mutex
+	crit string
+}
+
+type plugFatal struct{ msg string }
+
+func (f *plugFatalCatcher) Output(calldepth int, msgBytes []byte, level erpc.LoggerLevel) {
+	if level == erpc.CRITICAL {
+		f.mu.Lock()
+		f.crit = string(msgBytes)
+		f.mu.Unlock()
+	}
+}
+
+func (f *plugFatalCatcher) Flush() error {
+	f.mu.Lock()
+	m := f.crit
+	f.crit = ""
+	f.mu.Unlock()
+	if m != "" {
+		panic(plugFatal{m})
+	}
+	return nil
+}
+
+// plugGuard runs one scenario and records a Fatalf of the framework as the event Fatal.
+func plugGuard(rec *Rec, run func()) {
+	defer func() {
+		if p := recover(); p != nil {
+			pf, ok := p.(plugFatal)
+			if !ok {
+				panic(p)
+			}
+			rec.Emit("Fatal", "msg", pf.msg)
+			rec.Flush()
+		}
+	}()
+	run()
+}
+
+// runPlugOrigin executes a scenario of the second class: the global lists are built step by step as the scenario says, the
+// groups and the two sibling routes are registered as in runPlug, then every route is called once (each call on a session of
+// its own, closed gracefully on the serving side so that everything the exchange causes is recorded before the next starts).
+func runPlugOrigin(rec *Rec, sc *PlugScenario, n int) {
+	rec.SetTrace(sc.ID, map[string]interface{}{"mode": "plugorigin", "exphooks": []string{}, "optional": sc.Optional,
+		"vetopl": sc.VetoPl, "vstage": sc.VStage, "late": sc.Late, "depth": sc.Depth, "nl": sc.NL, "nr": sc.NR, "sib": sc.Sib, "origin": sc.Origin})
+	app := NewApp(rec, nil)
+	CurApp = app
+	mk := func(name string) erpc.Plugin {
+		v := ""
+		if sc.VetoPl == name {
+			v = sc.VStage
+		}
+		return NewPlug(rec, "srv", name, "all", v)
+	}
+	var srv, cli erpc.Peer
+	defer func() {
+		done := make(chan struct{})
+		go func() {
+			if cli != nil {
+				cli.Close()
+			}
+			if srv != nil {
+				srv.Close()
+			}
+			close(done)
+		}()
+		select {
+		case <-done:
+		case <-time.After(time.Second):
+		}
+		rec.Flush()
+	}()
+	for _, b := range sc.Build {
+		ps := make([]erpc.Plugin, len(b.Names)) // exactly as long as its content
+		for i, nm := range b.Names {
+			ps[i] = mk(nm)
+		}
+		errs := ""
+		switch b.Op {
+		case "newpeer":
+			if b.How == "sparecap" {
+				// what a caller gets who collects the plugins with append: a slice with room to spare
+				grown := make([]erpc.Plugin, 0, len(ps)+4)
+				grown = append(grown, ps...)
+				srv = erpc.NewPeer(erpc.PeerConfig{}, grown...)
+			} else {
+				switch len(ps) {
+				case 0:
+					srv = erpc.NewPeer(erpc.PeerConfig{})
+				case 1:
+					srv = erpc.NewPeer(erpc.PeerConfig{}, ps[0])
+				case 2:
+					srv = erpc.NewPeer(erpc.PeerConfig{}, ps[0], ps[1])
+				case 3:
+					srv = erpc.NewPeer(erpc.PeerConfig{}, ps[0], ps[1], ps[2])
+				default:
+					srv = erpc.NewPeer(erpc.PeerConfig{}, ps[:len(ps):len(ps)]...)
+				}
+			}
+		case "appendleft":
+			srv.PluginContainer().AppendLeft(ps...)
+		case "appendright":
+			srv.PluginContainer().AppendRight(ps...)
+		case "remove":
+			for _, nm := range b.Names {
+				if err := srv.PluginContainer().Remove(nm); err != nil {
+					errs += err.Error() + ";"
+				}
+			}
+		}
+		rec.Emit("Built", "op", b.Op, "how", b.How, "names", b.Names, "err", errs)
+	}
+	if srv == nil {
+		rec.Emit("SetupFailed")
+		return
+	}
+	// nested groups
+	var grp *erpc.SubRouter
+	for i := 1; i <= sc.Depth; i++ {
+		var ps []erpc.Plugin
+		if sc.GP[i-1] == 1 {
+			ps = append(ps, mk(fmt.Sprintf("G%d", i)))
+		}
+		seg := fmt.Sprintf("g%d", i)
+		if grp == nil {
+			grp = srv.SubRoute(seg, ps...)
+		} else {
+			grp = grp.SubRoute(seg, ps...)
+		}
+	}
+	reg := func(ctrl interface{}, ps ...erpc.Plugin) []string {
+		if grp == nil {
+			return srv.RouteCall(ctrl, ps...)
+		}
+		return grp.RouteCall(ctrl, ps...)
+	}
+	var routes []string
+	for i := 1; i <= sc.Sib; i++ {
+		var ps []erpc.Plugin
+		if sc.HP[i-1] == 1 {
+			ps = append(ps, mk(fmt.Sprintf("H%d", i)))
+		}
+		var names []string
+		if i == 1 {
+			names = reg(new(HA), ps...)
+		} else {
+			names = reg(new(HB), ps...)
+		}
+		routes = append(routes, names[0])
+	}
+	// a global plugin appended after the routes exist
+	switch sc.Late {
+	case "left":
+		srv.PluginContainer().AppendLeft(mk("LL"))
+	case "right":
+		srv.PluginContainer().AppendRight(mk("LR"))
+	}
+	cli = erpc.NewPeer(erpc.PeerConfig{})
+	for k, call := range sc.Calls {
+		if call.Target < 1 || call.Target > len(routes) {
+			continue
+		}
+		rec.Emit("Target", "k", k, "target", call.Target, "route", routes[call.Target-1], "exphooks", call.ExpHooks, "optional", sc.Optional, "invoked", call.Invoked)
+		a, b := Pipe(fmt.Sprintf("PC%d_%d", n, k), fmt.Sprintf("PS%d_%d", n, k))
+		var ss erpc.Session
+		sd := make(chan struct{})
+		go func() { ss, _ = srv.ServeConn(b); close(sd) }()
+		cs, st := cli.ServeConn(a)
+		<-sd
+		if !st.OK() || ss == nil {
+			rec.Emit("SetupFailed")
+			return
+		}
+		tag := fmt.Sprintf("%s.%d", sc.ID, k)
+		res := new(Res)
+		done := make(chan erpc.CallCmd, 1)
+		go func() {
+			done <- cs.Call(routes[call.Target-1], &Arg{Tag: tag}, res, erpc.WithSetMeta(MetaKey, "m-"+tag))
+		}()
+		select {
+		case cmd := <-done:
+			s := cmd.Status()
+			cause := ""
+			if cz := s.Cause(); cz != nil {
+				cause = cz.Error()
+			}
+			rec.Emit("CallDone", "code", s.Code(), "msg", s.Msg(), "cause", cause, "resok", res.Tag == F(tag), "route", routes[call.Target-1])
+		case <-time.After(10 * time.Second):
+			rec.Emit("CallHang")
+		}
+		// the serving side's post-write hooks run after the caller has its reply: a graceful close of the serving session
+		// waits for its running handler contexts
+		cd := make(chan struct{})
+		go func() { ss.Close(); cs.Close(); close(cd) }()
+		select {
+		case <-cd:
+		case <-time.After(5 * time.Second):
+		}
+		rec.Emit("Quiesce", "k", k)
+	}
 }
